@@ -23,7 +23,7 @@ Definition dec_rec : Type := gstate -> str -> list xattr -> xdecoder -> bool -> 
 
 Definition dec_body_f (esc : str -> str) (ecast : str -> bool -> str -> value) (f : nat) (st : gstate) (skey : str) (r : bool)
   : dec_state -> ctl dec_state dec_result :=
-  ltac:(let t := eval cbv beta iota zeta delta [fn_xmlToMapParser] in (fn_xmlToMapParser esc ecast (S f) st skey [] ([], TermEOF) r) in
+  ltac:(let t := eval cbv beta iota zeta delta [fn_xmlToMapParser] in (fn_xmlToMapParser ecast esc (S f) st skey [] ([], TermEOF) r) in
         match t with @bindc _ _ _ _ ?k1 =>
           let t1 := eval cbv beta in (k1 skey) in
           match t1 with @bindc _ _ _ _ ?k2 =>
@@ -34,7 +34,7 @@ Definition dec_body_f (esc : str -> str) (ecast : str -> bool -> str -> value) (
 
 Definition dec_body (esc : str -> str) (ecast : str -> bool -> str -> value) (rec : dec_rec) (st : gstate) (skey : str) (r : bool)
   : dec_state -> ctl dec_state dec_result :=
-  ltac:(let F := eval cbv beta iota zeta delta [fn_xmlToMapParser] in (fn_xmlToMapParser esc ecast) in
+  ltac:(let F := eval cbv beta iota zeta delta [fn_xmlToMapParser] in (fn_xmlToMapParser ecast esc) in
         let b := eval cbv beta iota zeta delta [dec_body_f fn_xmlToMapParser] in (fun f => dec_body_f esc ecast f st skey r) in
         let b' := eval pattern F in b in
         match b' with ?g _ => let r := eval cbv beta in (g (fun _ : nat => rec) O) in exact r end).
@@ -42,13 +42,13 @@ Definition dec_body (esc : str -> str) (ecast : str -> bool -> str -> value) (re
 (* the body of the attribute loop *)
 Definition dec_attr_body (esc : str -> str) (ecast : str -> bool -> str -> value) (st : gstate) (r : bool)
   : entries * bool -> xattr -> ctl (entries * bool) dec_result :=
-  ltac:(let t := eval cbv beta iota zeta delta [fn_xmlToMapParser] in (fn_xmlToMapParser esc ecast 1 st [] [] ([], TermEOF) r) in
+  ltac:(let t := eval cbv beta iota zeta delta [fn_xmlToMapParser] in (fn_xmlToMapParser ecast esc 1 st [] [] ([], TermEOF) r) in
         match t with context [range_loop ?b _ _] => exact b end).
 
 Definition dec_after : dec_state -> ctl unit dec_result := fun '(_, _, _, _, _, _) => Fall.
 
 Lemma fn_xmlToMapParser_unfold esc ecast f st skey a p r :
-  fn_xmlToMapParser esc ecast (S f) st skey a p r =
+  fn_xmlToMapParser ecast esc (S f) st skey a p r =
   bindc (if g_lowerCase st then Next (to_lower skey) else Next skey) (fun sk1 =>
   bindc (if g_snakeCaseKeys st then Next (go_replace sk1 (s "-") (s "_") (-1)) else Next sk1) (fun sk =>
   bindc (S := (entries * bool * entries * bool))
@@ -64,7 +64,7 @@ Lemma fn_xmlToMapParser_unfold esc ecast f st skey a p r :
               then if negb l_n_made then Crash else Ret (Ok (set sk (VMap l_na) l_n), p)
               else Next tt
          else Next tt)
-  (fun _ => bindc (for_loop (S (length (fst p))) (dec_body esc ecast (fn_xmlToMapParser esc ecast f) st sk r)
+  (fun _ => bindc (for_loop (S (length (fst p))) (dec_body esc ecast (fn_xmlToMapParser ecast esc f) st sk r)
                             (p, 0%Z, l_na, l_na_made, l_n, l_n_made)) dec_after)))).
 Proof. reflexivity. Qed.
 
@@ -257,12 +257,12 @@ Definition dec_loop (rec : dec_rec) (skey : str) (fuel : nat) (s0 : dec_state) :
   bindc (for_loop fuel (body rec st skey r) s0) dec_after.
 
 Lemma fn_prelude f skey a ts tm :
-  fn_xmlToMapParser esc ecast (S f) st skey a (ts, tm) r =
+  fn_xmlToMapParser ecast esc (S f) st skey a (ts, tm) r =
   match xform_key o skey with
-  | [] => dec_loop (fn_xmlToMapParser esc ecast f) [] (S (length ts)) ((ts, tm), 0%Z, [], false, [], false)
+  | [] => dec_loop (fn_xmlToMapParser ecast esc f) [] (S (length ts)) ((ts, tm), 0%Z, [], false, [], false)
   | ckey => if handleXMPPStreamTag o && str_eqb ckey (s "stream")
             then Ret (Ok [(ckey, VMap (attr_entries pf skip o r a))], (ts, tm))
-            else dec_loop (fn_xmlToMapParser esc ecast f) ckey (S (length ts))
+            else dec_loop (fn_xmlToMapParser ecast esc f) ckey (S (length ts))
                           ((ts, tm), 0%Z, attr_entries pf skip o r a, true, [], true)
   end.
 Proof.
@@ -374,13 +374,13 @@ End Loop.
 
 Lemma fn_elem : forall f nm a ts tm f2,
   xlocal nm <> [] -> length ts < f -> length ts < f2 -> forallb start_ok ts = true ->
-  fn_xmlToMapParser esc ecast f st (xlocal nm) a (ts, tm) r = conv_elem tm (child_model f2 nm a ts tm).
+  fn_xmlToMapParser ecast esc f st (xlocal nm) a (ts, tm) r = conv_elem tm (child_model f2 nm a ts tm).
 Proof.
   induction f as [|f IHf]; intros nm a ts tm f2 Hloc Hf Hf2 Hs; [lia|].
   rewrite fn_prelude. unfold child_model, is_stream.
   destruct (xform_key o (xlocal nm)) as [|c0 k0] eqn:Ek; [apply xform_key_nil in Ek; contradiction|].
   destruct (handleXMPPStreamTag o && str_eqb (c0 :: k0) (s "stream")); [reflexivity|].
-  apply (elem_loop_code (fn_xmlToMapParser esc ecast f) f tm) with (N := S (length ts)) (n := None).
+  apply (elem_loop_code (fn_xmlToMapParser ecast esc f) f tm) with (N := S (length ts)) (n := None).
   - intros nm' a' ts' f2' H1 H2 H3 H4. apply IHf; assumption.
   - lia.
   - discriminate.
@@ -394,7 +394,7 @@ Qed.
 
 Lemma top_loop_code f tm : forall ts lf F,
   length ts <= f -> length ts < lf -> length ts <= F -> forallb start_ok ts = true ->
-  dec_loop (fn_xmlToMapParser esc ecast f) [] lf ((ts, tm), 0%Z, [], false, [], false)
+  dec_loop (fn_xmlToMapParser ecast esc f) [] lf ((ts, tm), 0%Z, [], false, [], false)
   = conv_top tm (top_loop pf skip o r F ts tm).
 Proof.
   induction ts as [|tk ts' IH]; intros lf F Hf Hlf HF Hs; (destruct lf as [|lf]; [cbn [length] in Hlf; lia|]);
@@ -426,7 +426,7 @@ Proof. unfold xform_key. destruct (lowerCase o); destruct (snakeCaseKeys o); ref
 
 Theorem xml_parser_code_is_model_gen fuel ts tm :
   length ts < fuel -> forallb start_ok ts = true ->
-  fn_xmlToMapParser esc ecast fuel st [] [] (ts, tm) r
+  fn_xmlToMapParser ecast esc fuel st [] [] (ts, tm) r
   = conv_top tm (xml_decode_rest pf skip o r ts tm).
 Proof.
   intros Hf Hs. destruct fuel as [|f]; [lia|].
@@ -450,7 +450,7 @@ Definition dec_top_result (tm : term) (x : res (entries * list tok)) : ctl unit 
    escapeChars as callees, IS the model decoder - on every token list whose start tags have a non-empty local name *)
 Theorem xml_parser_code_is_model : forall pf skip o r st ts tm,
   dec_view st o -> forallb start_ok ts = true ->
-  fn_xmlToMapParser escape_chars (fun x b t => cast pf skip o x b t) (S (length ts)) st [] [] (ts, tm) r
+  fn_xmlToMapParser (fun x b t => cast pf skip o x b t) escape_chars (S (length ts)) st [] [] (ts, tm) r
   = dec_top_result tm (xml_decode_rest pf skip o r ts tm).
 Proof.
   intros pf skip o r st ts tm Hv Hs.
@@ -461,7 +461,7 @@ Qed.
 (* the same for any fuel above the number of tokens *)
 Theorem xml_parser_code_is_model_fuel : forall pf skip o r st fuel ts tm,
   dec_view st o -> length ts < fuel -> forallb start_ok ts = true ->
-  fn_xmlToMapParser escape_chars (fun x b t => cast pf skip o x b t) fuel st [] [] (ts, tm) r
+  fn_xmlToMapParser (fun x b t => cast pf skip o x b t) escape_chars fuel st [] [] (ts, tm) r
   = dec_top_result tm (xml_decode_rest pf skip o r ts tm).
 Proof.
   intros pf skip o r st fuel ts tm Hv Hf Hs.
@@ -472,7 +472,7 @@ Qed.
 (* a call for an element (skey = the local name of its start tag, its attributes): the singleton Map of the element *)
 Theorem xml_parser_elem_code_is_model : forall pf skip o r st fuel nm a ts tm,
   dec_view st o -> xlocal nm <> [] -> length ts < fuel -> forallb start_ok ts = true ->
-  fn_xmlToMapParser escape_chars (fun x b t => cast pf skip o x b t) fuel st (xlocal nm) a (ts, tm) r
+  fn_xmlToMapParser (fun x b t => cast pf skip o x b t) escape_chars fuel st (xlocal nm) a (ts, tm) r
   = match (if is_stream o nm
            then Ok ((xform_key o (xlocal nm), VMap (attr_entries pf skip o r a)), ts)
            else elem_loop pf skip o r (S (length ts)) (xform_key o (xlocal nm)) None (attr_entries pf skip o r a) 0 ts tm) with
@@ -494,7 +494,7 @@ Definition run_escapeChars (st : gstate) (x : str) : str :=
 
 Theorem xml_parser_code_is_model_translated : forall pf callskip o r st fuel ts tm,
   dec_view st o -> cast_view st o -> length ts < fuel -> forallb start_ok ts = true ->
-  fn_xmlToMapParser (run_escapeChars st) (run_cast pf callskip st) fuel st [] [] (ts, tm) r
+  fn_xmlToMapParser (run_cast pf callskip st) (run_escapeChars st) fuel st [] [] (ts, tm) r
   = dec_top_result tm (xml_decode_rest pf (skip_of st callskip) o r ts tm).
 Proof.
   intros pf callskip o r st fuel ts tm Hv Hc Hf Hs.
@@ -513,7 +513,7 @@ Qed.
 
 Corollary xml_parser_code_no_panic : forall pf callskip o r st fuel ts tm,
   dec_view st o -> cast_view st o -> length ts < fuel -> forallb start_ok ts = true -> top_ok ts = true ->
-  fn_xmlToMapParser (run_escapeChars st) (run_cast pf callskip st) fuel st [] [] (ts, tm) r <> Crash.
+  fn_xmlToMapParser (run_cast pf callskip st) (run_escapeChars st) fuel st [] [] (ts, tm) r <> Crash.
 Proof.
   intros pf callskip o r st fuel ts tm Hv Hc Hf Hs Ht.
   rewrite (xml_parser_code_is_model_translated pf callskip o r st fuel ts tm Hv Hc Hf Hs).
@@ -523,7 +523,7 @@ Qed.
 
 Corollary xml_parser_model_callees_no_panic : forall pf skip o r st fuel ts tm,
   dec_view st o -> length ts < fuel -> forallb start_ok ts = true -> top_ok ts = true ->
-  fn_xmlToMapParser escape_chars (fun x b t => cast pf skip o x b t) fuel st [] [] (ts, tm) r <> Crash.
+  fn_xmlToMapParser (fun x b t => cast pf skip o x b t) escape_chars fuel st [] [] (ts, tm) r <> Crash.
 Proof.
   intros pf skip o r st fuel ts tm Hv Hf Hs Ht.
   rewrite (xml_parser_code_is_model_fuel pf skip o r st fuel ts tm Hv Hf Hs).
@@ -534,7 +534,7 @@ Qed.
 (* the stray end tag is the panic of the code: the store n[skey] = "" into the nil map *)
 Lemma xml_parser_code_stray_end_panics : forall pf skip o r st nm ts tm,
   dec_view st o -> forallb start_ok ts = true ->
-  fn_xmlToMapParser escape_chars (fun x b t => cast pf skip o x b t) (S (S (length ts))) st [] [] (TEnd nm :: ts, tm) r = Crash.
+  fn_xmlToMapParser (fun x b t => cast pf skip o x b t) escape_chars (S (S (length ts))) st [] [] (TEnd nm :: ts, tm) r = Crash.
 Proof.
   intros pf skip o r st nm ts tm Hv Hs.
   rewrite (xml_parser_code_is_model_fuel pf skip o r st _ (TEnd nm :: ts) tm Hv); [reflexivity|cbn [length]; lia|exact Hs].
@@ -544,7 +544,7 @@ Qed.
    returns) the code starts over as if at top level, the model says Panic *)
 Lemma xml_parser_code_is_model_empty_name_refuted :
   exists pf skip o r st ts tm, dec_view st o /\
-    fn_xmlToMapParser escape_chars (fun x b t => cast pf skip o x b t) (S (length ts)) st [] [] (ts, tm) r
+    fn_xmlToMapParser (fun x b t => cast pf skip o x b t) escape_chars (S (length ts)) st [] [] (ts, tm) r
     <> dec_top_result tm (xml_decode_rest pf skip o r ts tm).
 Proof.
   exists (fun _ => None), (fun _ => false), opts0, true, gstate0,
@@ -559,7 +559,7 @@ Example xml_parser_code_example :
   let ts := [TChar (s " "); TStart (ex_name "a") [{| aname := ex_name "k"; avalue := s "v" |}]; TChar (s " hi ");
              TStart (ex_name "b") []; TChar (s "true"); TEnd (ex_name "b"); TStart (ex_name "b") []; TEnd (ex_name "b"); TEnd (ex_name "a"); TChar (s "z")] in
   dec_view gstate0 opts0 /\ cast_view gstate0 opts0 /\ forallb start_ok ts = true /\ top_ok ts = true /\
-  fn_xmlToMapParser (run_escapeChars gstate0) (run_cast (fun _ => None) (fun _ => false) gstate0) (S (length ts)) gstate0 [] [] (ts, TermEOF) true
+  fn_xmlToMapParser (run_cast (fun _ => None) (fun _ => false) gstate0) (run_escapeChars gstate0) (S (length ts)) gstate0 [] [] (ts, TermEOF) true
   = Ret (Ok [(s "a", VMap [(s "-k", VStr (s "v")); (s "#text", VStr (s "hi")); (s "b", VList [VBool true; VStr []])])],
          ([TChar (s "z")], TermEOF)).
 Proof. cbv zeta. repeat split. Qed.
